@@ -9,6 +9,7 @@ import (
 	"cmp"
 	"context"
 	"crypto/tls"
+	"errors"
 	"fmt"
 	"hash/fnv"
 	"math/rand"
@@ -83,7 +84,15 @@ type Sim struct {
 	// StopBudget, when > 0, replaces the default number of statements (stopBudget) a task may
 	// still execute after Stop (harnesses with an endless fabio loop as a task lower it).
 	StopBudget int
+	// DriverG is the goroutine of the driver and StepTask lets it run one task up to its next yield (both set by
+	// the driver): a lock the driver itself needs (a harness observing fabio state through fabio's own accessors)
+	// while a parked task holds it is obtained by letting that task run on until it gives the lock up.
+	DriverG  uint64
+	StepTask func(t *Task)
+	Quiesce  func() // waits until every goroutine of the bubble is durably blocked (set by the driver)
 
+	defTr    *http.Transport
+	relc     chan struct{} // closed at the next release of a simulated lock (wakes non-task waiters)
 	mu       sync.Mutex
 	byG      map[uint64]*Task
 	tasks    []*Task
@@ -538,6 +547,8 @@ func (s *Sim) Observed(kind string) []any {
 
 // ---- simulated locks ----
 
+func (s *Sim) lockFreeForLocked(t *Task) bool { return s.lockFreeFor(t) }
+
 func (s *Sim) lockFreeFor(t *Task) bool {
 	ls := s.locks[t.blockedOn]
 	if ls == nil {
@@ -623,13 +634,85 @@ func (s *Sim) release(key any, read bool) {
 			t.locks--
 		}
 	}
+	if s.relc != nil {
+		close(s.relc)
+		s.relc = nil
+	}
 	s.mu.Unlock()
+}
+
+// Goid returns the id of the calling goroutine.
+func Goid() uint64 { return goid() }
+
+// foreignLock takes a lock for a caller that is not a task (the driver, or a goroutine a library started in an
+// event-level run). The real lock may be held by a task that is parked at a yield: blocking on it would not be
+// durable (the bubble never gets quiescent) and the holder would never be released. The driver therefore lets
+// the holder run on, statement by statement, until the lock is free; any other goroutine waits (durably) for the
+// next release of a simulated lock and tries again.
+func (s *Sim) foreignLock(key any, try func() bool, lock func()) {
+	me := uint64(0)
+	stuck := 0
+	for i := 0; i < 200000; i++ {
+		if try != nil && try() {
+			return
+		}
+		s.mu.Lock()
+		if s.stopping.Load() {
+			s.mu.Unlock()
+			break
+		}
+		var holder *Task
+		if ls := s.locks[key]; ls != nil {
+			holder = ls.writer
+			for t := range ls.readers {
+				if holder == nil || t.Name < holder.Name {
+					holder = t
+				}
+			}
+		}
+		if holder == nil {
+			// held by a goroutine that is not a task: it is running (or blocked in a real operation) and lets go by itself
+			s.mu.Unlock()
+			break
+		}
+		if s.relc == nil {
+			s.relc = make(chan struct{})
+		}
+		ch := s.relc
+		runnable := holder.state == stParked && (holder.blockedOn == nil || s.lockFreeForLocked(holder))
+		s.mu.Unlock()
+		if me == 0 {
+			me = goid()
+		}
+		if me == s.DriverG && s.StepTask != nil {
+			if !runnable {
+				// the holder may simply not have reached its next yield yet (the harness did not wait for quiescence)
+				stuck++
+				if stuck > 3 || s.Quiesce == nil {
+					panic(fmt.Sprintf("simhook: the driver needs a lock held by task %s, which cannot run", holder.Name))
+				}
+				s.Quiesce()
+				continue
+			}
+			stuck = 0
+			s.StepTask(holder)
+			continue
+		}
+		<-ch
+	}
+	lock()
 }
 
 // realLock takes the real lock behind a simulated one. During teardown a lock may have been leaked for good (a
 // task returned without unlocking): a task that cannot get it then ends instead of blocking non-durably forever.
-func realLock(try func() bool, lock func()) {
-	if s := cur.Load(); s != nil && s.stopping.Load() && s.current() != nil {
+func realLock(key any, held *Task, try func() bool, lock func()) {
+	s := cur.Load()
+	if s != nil && held == nil && !s.stopping.Load() {
+		// acquire returns nil only without a simulation, during teardown, or for a caller that is not a task
+		s.foreignLock(key, try, lock)
+		return
+	}
+	if s != nil && s.stopping.Load() && s.current() != nil {
 		for i := 0; i < 2000; i++ {
 			if try() {
 				return
@@ -641,14 +724,31 @@ func realLock(try func() bool, lock func()) {
 	lock()
 }
 
-func MutexLock(m *sync.Mutex)       { cur.Load().acquire(m, false); realLock(m.TryLock, m.Lock) }
+func MutexLock(m *sync.Mutex)       { realLock(m, cur.Load().acquire(m, false), m.TryLock, m.Lock) }
 func MutexUnlock(m *sync.Mutex)     { m.Unlock(); cur.Load().release(m, false) }
-func RWMutexLock(m *sync.RWMutex)   { cur.Load().acquire(m, false); realLock(m.TryLock, m.Lock) }
+func RWMutexLock(m *sync.RWMutex)   { realLock(m, cur.Load().acquire(m, false), m.TryLock, m.Lock) }
 func RWMutexUnlock(m *sync.RWMutex) { m.Unlock(); cur.Load().release(m, false) }
-func RWMutexRLock(m *sync.RWMutex)  { cur.Load().acquire(m, true); realLock(m.TryRLock, m.RLock) }
+func RWMutexRLock(m *sync.RWMutex)  { realLock(m, cur.Load().acquire(m, true), m.TryRLock, m.RLock) }
 func RWMutexRUnlock(m *sync.RWMutex) {
 	m.RUnlock()
 	cur.Load().release(m, true)
+}
+
+// OnceDo stands for o.Do(f). The function may reach a yield (in a function it calls) and park while it is inside
+// the Once; a second caller would then block on the mutex inside sync.Once, which is not durable. Callers that are
+// tasks therefore queue on a simulated lock, and other callers wait until no task is inside.
+func OnceDo(o *sync.Once, f func()) {
+	s := cur.Load()
+	if s == nil {
+		o.Do(f)
+		return
+	}
+	if t := s.acquire(o, false); t != nil {
+		defer s.release(o, false)
+	} else if !s.stopping.Load() {
+		s.foreignLock(o, nil, func() {})
+	}
+	o.Do(f)
 }
 
 // ---- sync.Pool ----
@@ -732,17 +832,40 @@ func TLSDial(network, addr string, config *tls.Config) (*tls.Conn, error) {
 func DialerDial(d *net.Dialer) func(network, addr string) (net.Conn, error) {
 	return func(network, addr string) (net.Conn, error) {
 		if s := cur.Load(); s != nil && s.Dial != nil {
-			return s.Dial(context.Background(), network, addr, d.Timeout, d.KeepAlive)
+			return s.Dial(context.Background(), network, addr, effectiveTimeout(context.Background(), d), d.KeepAlive)
 		}
 		return d.Dial(network, addr)
 	}
+}
+
+// effectiveTimeout is the time limit of a dial as net.Dialer defines it: the earliest of Timeout, Deadline and the
+// deadline of the context (a dialer that bounds its dials by a context deadline is limited exactly like one that
+// sets Timeout). 0 means no limit.
+func effectiveTimeout(ctx context.Context, d *net.Dialer) time.Duration {
+	limit := d.Timeout
+	tighten := func(t time.Time) {
+		rem := time.Until(t)
+		if rem <= 0 {
+			rem = 1
+		}
+		if limit <= 0 || rem < limit {
+			limit = rem
+		}
+	}
+	if !d.Deadline.IsZero() {
+		tighten(d.Deadline)
+	}
+	if dl, ok := ctx.Deadline(); ok {
+		tighten(dl)
+	}
+	return limit
 }
 
 // DialerDialContext replaces the method value (&net.Dialer{...}).DialContext.
 func DialerDialContext(d *net.Dialer) func(ctx context.Context, network, addr string) (net.Conn, error) {
 	return func(ctx context.Context, network, addr string) (net.Conn, error) {
 		if s := cur.Load(); s != nil && s.Dial != nil {
-			return s.Dial(ctx, network, addr, d.Timeout, d.KeepAlive)
+			return s.Dial(ctx, network, addr, effectiveTimeout(ctx, d), d.KeepAlive)
 		}
 		return d.DialContext(ctx, network, addr)
 	}
@@ -762,6 +885,42 @@ func HTTPTransport(t *http.Transport) *http.Transport {
 	}
 	return t
 }
+
+// simDefaultTransport stands in for http.DefaultTransport in the worker process: requests that fabio code sends
+// through http.DefaultClient, a zero http.Client or http.DefaultTransport itself reach the simulated world (the
+// harness's HTTPGet responder for GET requests, the simulated network otherwise) and never a real socket.
+type simDefaultTransport struct{ real http.RoundTripper }
+
+func (rt simDefaultTransport) RoundTrip(req *http.Request) (*http.Response, error) {
+	s := cur.Load()
+	if s == nil {
+		return rt.real.RoundTrip(req)
+	}
+	if s.HTTPGet != nil && req.Method == http.MethodGet {
+		if req.Body != nil {
+			req.Body.Close()
+		}
+		resp, err := s.HTTPGet(req.URL.String())
+		if resp != nil {
+			resp.Request = req
+		}
+		return resp, err
+	}
+	if s.Dial != nil {
+		s.mu.Lock()
+		if s.defTr == nil {
+			s.defTr = &http.Transport{DisableKeepAlives: true, DialContext: func(ctx context.Context, network, addr string) (net.Conn, error) {
+				return s.Dial(ctx, network, addr, 0, -1)
+			}}
+		}
+		tr := s.defTr
+		s.mu.Unlock()
+		return tr.RoundTrip(req)
+	}
+	return nil, errors.New("simhook: this simulation has no network behind http.DefaultTransport")
+}
+
+func init() { http.DefaultTransport = simDefaultTransport{real: http.DefaultTransport} }
 
 func NetListen(network, addr string) (net.Listener, error) {
 	if s := cur.Load(); s != nil && s.Listen != nil {
